@@ -39,6 +39,10 @@ type E2JC struct {
 	// TemplateMeta puts labels/annotations on the job template, including the
 	// reserved keys the controllers write themselves.
 	TemplateMeta bool `json:"templateMeta,omitempty"`
+	// TemplateMetaKind: "" = both reserved keys, "ann" = only the schedule-time
+	// annotation, "label" = only the JobConfig UID label (a stale UID label makes
+	// the validating webhook refuse the Job, which would mask a wrong annotation).
+	TemplateMetaKind string `json:"templateMetaKind,omitempty"`
 	// RestartOnFailure lets the kubelet model restart a container in place.
 	RestartOnFailure bool `json:"restartOnFailure,omitempty"`
 }
@@ -119,8 +123,14 @@ func (j E2JC) object() *execution.JobConfig {
 	}
 	if j.TemplateMeta {
 		// e.g. a template pasted from `kubectl get job -o yaml` of an earlier Job
-		jc.Spec.Template.Labels = map[string]string{"team": "a", labelJobConfigUID: "stale-uid"}
-		jc.Spec.Template.Annotations = map[string]string{"note": "b", annScheduleTime: "1600000000"}
+		jc.Spec.Template.Labels = map[string]string{"team": "a"}
+		jc.Spec.Template.Annotations = map[string]string{"note": "b"}
+		if j.TemplateMetaKind != "ann" {
+			jc.Spec.Template.Labels[labelJobConfigUID] = "stale-uid"
+		}
+		if j.TemplateMetaKind != "label" {
+			jc.Spec.Template.Annotations[annScheduleTime] = "1600000000"
+		}
 	}
 	return jc
 }
@@ -328,7 +338,14 @@ func (r *e2run) apply(op E2Op) {
 		case "terminate":
 			w.KubeletTerminate(op.A)
 		case "restart":
-			w.KubeletRestartContainer(op.A)
+			if w.KubeletRestartContainer(op.A) {
+				r.label("container-restarted")
+			}
+		case "restart-oom":
+			if w.KubeletRestartContainerOOM(op.A) {
+				r.label("container-restarted")
+				r.label("container-restarted-after-oom")
+			}
 		}
 	case "settle":
 		r.settle()
@@ -355,11 +372,19 @@ func (r *e2run) apply(op E2Op) {
 	case "crash": // arm a crash for the next controller step
 		c := *op.C
 		w.API.Crash = &c
-	case "restart":
+	case "restart": // A = order of the initial LISTs, e.g. "jobs,pods,jobconfigs" ("" = default)
 		w.Kill()
+		w.ListOrder = nil
+		if op.A != "" {
+			for _, x := range strings.Split(op.A, ",") {
+				w.ListOrder = append(w.ListOrder, sim.Res(x))
+			}
+			r.label("restart-list-order-permuted")
+		}
 		if err := w.StartProcess(); err != nil {
 			panic(err)
 		}
+		w.ListOrder = nil
 		r.label("restart")
 	}
 	if !w.Alive && op.K != "restart" {
@@ -471,6 +496,17 @@ type e2Profile struct {
 	// JobConfigs forbid force deletion, and the clock moves in steps around the
 	// timeout while Pods linger in termination (C12 force sub-check).
 	forceHeavy bool
+	// reapHeavy: a pending timeout of 20 s always applies, Pods get scheduled but
+	// rarely start in time, and a Pod that is already terminating may still start
+	// and exit (C08/C11 reaped sub-checks).
+	reapHeavy bool
+	// foreignHeavy: every Job is parallel, foreign Pods are planted often, and the
+	// injected faults concentrate on the job controller's status writes, so that
+	// tasks created next to a foreign Pod stay unrecorded for a while (C09 foreign).
+	foreignHeavy bool
+	// restartHeavy: every Pod has restartPolicy OnFailure, so containers are often
+	// restarted in place (also after an OOM kill) before they exit for good.
+	restartHeavy bool
 }
 
 func genE2Setup(t *rapid.T, p e2Profile) *E2Trace {
@@ -536,9 +572,26 @@ func genE2Setup(t *rapid.T, p e2Profile) *E2Trace {
 			j.ForbidForce = rapid.IntRange(0, 2).Draw(t, "fhForbid") == 0
 			j.PendingTimeout = nil
 		}
+		if p.foreignHeavy {
+			j.ParKind, j.ParN = rapid.SampledFrom([]string{"count", "keys"}).Draw(t, "fhKind"), rapid.IntRange(2, 3).Draw(t, "fhN")
+			j.Strategy = rapid.SampledFrom([]string{"", "AllSuccessful", "AnySuccessful"}).Draw(t, "fhStrategy")
+		}
+		if p.reapHeavy {
+			twenty := int64(20)
+			j.PendingTimeout = &twenty
+			j.MaxAttempts = optInt64(t, "rpAttempts", 2, 3)
+			if j.MaxAttempts == nil {
+				two := int64(2)
+				j.MaxAttempts = &two
+			}
+			j.RetryDelay = optInt64(t, "rpDelay", 0, 5)
+		}
 		j.TTL = optInt64(t, "ttl", 0, 30, 3600)
 		j.TemplateMeta = rapid.IntRange(0, 3).Draw(t, "templateMeta") == 0
-		j.RestartOnFailure = rapid.IntRange(0, 3).Draw(t, "restartOnFailure") == 0
+		if j.TemplateMeta {
+			j.TemplateMetaKind = rapid.SampledFrom([]string{"", "ann", "ann", "label"}).Draw(t, "templateMetaKind")
+		}
+		j.RestartOnFailure = rapid.IntRange(0, 3).Draw(t, "restartOnFailure") == 0 || p.restartHeavy
 		if p.cron && rapid.IntRange(0, 2).Draw(t, "cron?") != 0 {
 			j.Cron = rapid.SampledFrom([]string{"* * * * *", "*/2 * * * *", "*/20 * * * * * *", "0,30 * * * * * *"}).Draw(t, "cron")
 			if p.confluent && j.Policy == "Forbid" {
@@ -641,9 +694,16 @@ func genOpsOn(t *rapid.T, r *e2run, tr *E2Trace, p e2Profile, _ int) {
 			add("deleteJob", 2, func() E2Op { return E2Op{K: "deleteJob", A: keyOf(rapid.SampledFrom(liveJobs).Draw(t, "deljob"))} })
 		}
 		var alivePods, schedulable, runnable, running, terminating, flapped []*corev1.Pod
+		var termRunnable, termRunning []*corev1.Pod // terminating, but the container start / exit races the deletion
 		for _, pd := range pods {
 			if pd.DeletionTimestamp != nil {
 				terminating = append(terminating, pd)
+				switch {
+				case pd.Spec.NodeName != "" && pd.Status.Phase == corev1.PodPending:
+					termRunnable = append(termRunnable, pd)
+				case pd.Status.Phase == corev1.PodRunning && len(pd.Status.ContainerStatuses) > 0:
+					termRunning = append(termRunning, pd)
+				}
 				continue
 			}
 			alivePods = append(alivePods, pd)
@@ -673,6 +733,10 @@ func genOpsOn(t *rapid.T, r *e2run, tr *E2Trace, p e2Profile, _ int) {
 			}
 			return rapid.SampledFrom([]string{"succeed", "succeed", "fail", "fail", "oom"}).Draw(t, "outcome")
 		})
+		kub("k-run-terminating", 2, termRunnable, func() string { return "run" })
+		kub("k-finish-terminating", 3, termRunning, func() string {
+			return rapid.SampledFrom([]string{"succeed", "fail", "fail"}).Draw(t, "outcome")
+		})
 		kub("k-flap", 1, running, func() string { return "flap" })
 		var restartable []*corev1.Pod
 		for _, pd := range running {
@@ -680,13 +744,16 @@ func genOpsOn(t *rapid.T, r *e2run, tr *E2Trace, p e2Profile, _ int) {
 				restartable = append(restartable, pd)
 			}
 		}
-		kub("k-restart", 3, restartable, func() string { return "restart" })
+		kub("k-restart", 3, restartable, func() string { return rapid.SampledFrom([]string{"restart", "restart-oom"}).Draw(t, "restartKind") })
 		kub("k-unflap", 4, flapped, func() string { return "unflap" })
 		kub("k-terminate", 6, terminating, func() string { return "terminate" })
 		if len(alivePods) > 0 {
 			add("deletePod", 1, func() E2Op { return E2Op{K: "deletePod", A: keyOf(rapid.SampledFrom(alivePods).Draw(t, "delpod"))} })
 		}
 		add("advance", 6, func() E2Op {
+			if p.reapHeavy { // steps around the pending timeout (20 s)
+				return E2Op{K: "advance", D: int64(rapid.SampledFrom([]int{1000, 5000, 19000, 20000, 21000, 25000, 30000, 60000}).Draw(t, "adv"))}
+			}
 			if p.forceHeavy { // steps around deletion grace period (30 s) + force-delete timeout (10-20 s)
 				return E2Op{K: "advance", D: int64(rapid.SampledFrom([]int{1000, 5000, 20000, 30000, 31000, 39000, 40000, 41000, 49000, 50000, 51000, 60000, 120000}).Draw(t, "adv"))}
 			}
@@ -734,7 +801,9 @@ func genOpsOn(t *rapid.T, r *e2run, tr *E2Trace, p e2Profile, _ int) {
 			}
 		}
 		if p.crashes && w.Alive {
-			add("restart", 1, func() E2Op { return E2Op{K: "restart"} })
+			add("restart", 1, func() E2Op {
+				return E2Op{K: "restart", A: rapid.SampledFrom([]string{"", "", "jobs,jobconfigs,pods", "jobs,pods,jobconfigs", "pods,jobs,jobconfigs", "pods,jobconfigs,jobs", "jobconfigs,pods,jobs"}).Draw(t, "listOrder")}
+			})
 			add("crash", 1, func() E2Op {
 				return E2Op{K: "crash", C: &sim.CrashPlan{AtCall: rapid.IntRange(1, 4).Draw(t, "crashAt"), AfterApply: rapid.Bool().Draw(t, "crashAfter")}}
 			})
@@ -764,9 +833,15 @@ func genOpsOn(t *rapid.T, r *e2run, tr *E2Trace, p e2Profile, _ int) {
 		}
 		if p.faults && len(w.API.Faults) < 4 {
 			add("fault", 3, func() E2Op {
+				actors := []string{"", "job", "job", "jobqueue", "jobconfig", "cron"}
+				verbs := []string{"", "create", "update", "updateStatus", "delete"}
+				if p.foreignHeavy {
+					actors = []string{"job"}
+					verbs = []string{"updateStatus", "updateStatus", "updateStatus", "update", "create"}
+				}
 				f := &sim.Fault{
-					Actor: rapid.SampledFrom([]string{"", "job", "job", "jobqueue", "jobconfig", "cron"}).Draw(t, "factor"),
-					Verb:  rapid.SampledFrom([]string{"", "create", "update", "updateStatus", "delete"}).Draw(t, "fverb"),
+					Actor: rapid.SampledFrom(actors).Draw(t, "factor"),
+					Verb:  rapid.SampledFrom(verbs).Draw(t, "fverb"),
 					Nth:   rapid.IntRange(1, 3).Draw(t, "fnth"), Count: rapid.IntRange(1, 3).Draw(t, "fcount"),
 					Kind: rapid.SampledFrom([]sim.FaultKind{sim.FaultReject, sim.FaultTimeout, sim.FaultConflict, sim.FaultCommitTimeout}).Draw(t, "fkind"),
 				}
